@@ -1,6 +1,7 @@
 package props
 
 import (
+	"context"
 	"github.com/glebziz/fs_db"
 	"path/filepath"
 	"sync"
@@ -364,6 +365,111 @@ func c13Churn(tier string, seed int64, idx int, scratch string) rt.CaseResult {
 	c.Evals = evals.Load()
 	if idx == 0 {
 		c.Sample = map[string]any{"scenario": "goroutines beginning and ending transactions concurrently; finished handles probed right away and at the end of each round", "workers": workers, "rounds": rounds, "transactions_per_goroutine_and_round": perRound}
+	}
+	return c
+}
+
+func init() {
+	p := Registry["C13"]
+	p.Roles["deadctx"] = Role{N: func(t string) int { return tierN(t, 6, 48) }, Case: c13DeadCtx}
+	p.Rule += " Role deadctx (inline and gRPC): a Commit or Rollback issued with a context that is already cancelled (over gRPC such a call never reaches the server) has not ended anything unless it returned nil; the Rollback (or Commit) with a live context that follows must really end the transaction: afterwards every read through the handle fails with ErrTxNotFound, the write of the transaction is committed exactly if a Commit returned nil, and after all ends a collector pass and a drain leave exactly one content file per key (a transaction that was never ended would pin the collector's horizon)."
+}
+
+// c13DeadCtx: ends attempted with a dead context, then the real end.
+func c13DeadCtx(tier string, seed int64, idx int, scratch string) rt.CaseResult {
+	var c rt.CaseResult
+	mode := dbx.Inline
+	if idx%2 == 1 {
+		mode = dbx.Grpc
+	}
+	env, err := dbx.Open(dbx.Options{Mode: mode, Dir: filepath.Join(scratch, "db")})
+	if err != nil {
+		c.Violate("open-failed", err.Error(), nil)
+		return c
+	}
+	defer env.Close()
+	rng := seqrun.Rng(seed, "C13d", idx)
+	dead, cancel := context.WithCancel(ctxBg)
+	cancel()
+	cur := map[string]string{}
+	for it := 0; it < tierN(tier, 24, 60); it++ {
+		rt.Beat()
+		level := rng.Intn(4)
+		key := fmt.Sprintf("k%d", it%3)
+		val := fmt.Sprintf("d%d-%d", idx, it)
+		tx, err := env.DB.Begin(ctxBg, verif.IsoLevel(level))
+		if err != nil {
+			c.Violate("begin-failed", err.Error(), nil)
+			return c
+		}
+		if err := tx.Set(ctxBg, key, []byte(val)); err != nil {
+			c.Violate("write-in-transaction-failed", err.Error(), nil)
+			return c
+		}
+		first := []string{"commit", "rollback"}[rng.Intn(2)]
+		second := []string{"rollback", "commit"}[rng.Intn(2)]
+		var e1, e2 error
+		if first == "commit" {
+			e1 = tx.Commit(dead)
+		} else {
+			e1 = tx.Rollback(dead)
+		}
+		rp := map[string]any{"seed": seed, "case": idx, "iteration": it, "mode": modeName(mode), "level": level, "first_with_dead_context": first, "first_result": fmt.Sprint(e1), "then": second}
+		committed := first == "commit" && e1 == nil
+		ended := e1 == nil || seqrun.Class(e1) == refmodel.TxSerial
+		if second == "commit" {
+			e2 = tx.Commit(ctxBg)
+			switch {
+			case ended && seqrun.Class(e2) != refmodel.TxNotFound:
+				c.Violate("late-commit-accepted after-end-with-dead-context got="+string(seqrun.Class(e2)), fmt.Sprintf("%s with a cancelled context returned %v (the transaction is over); the Commit that followed returned %v instead of ErrTxNotFound", first, e1, e2), rp)
+				return c
+			case !ended && e2 == nil:
+				committed = true
+			case !ended && seqrun.Class(e2) != refmodel.TxSerial && seqrun.Class(e2) != refmodel.TxNotFound:
+				c.Violate("end-failed op=commit after-dead-context", fmt.Sprintf("%s with a cancelled context failed (%v); the Commit with a live context that followed failed too: %v", first, e1, e2), rp)
+				return c
+			}
+		} else {
+			e2 = tx.Rollback(ctxBg)
+			if e2 != nil {
+				c.Violate("end-failed op=rollback after-dead-context", fmt.Sprintf("Rollback with a live context after a %s with a cancelled context (%v) returned %v", first, e1, e2), rp)
+				return c
+			}
+		}
+		rp["second_result"] = fmt.Sprint(e2)
+		c.Evals += 4
+		// the transaction is over now, whichever call ended it
+		_, g1 := tx.Get(ctxBg, key)
+		_, g2 := tx.GetKeys(ctxBg)
+		for i, e := range []error{g1, g2} {
+			if cls := seqrun.Class(e); cls != refmodel.TxNotFound {
+				op := []string{"get", "getkeys"}[i]
+				c.Violate(fmt.Sprintf("late-read-accepted after-end-with-dead-context op=%s got=%s", op, cls), fmt.Sprintf("%s with a cancelled context (%v), then %s with a live one (%v): %s through the handle gave %s instead of ErrTxNotFound - the transaction was never ended", first, e1, second, e2, op, cls), rp)
+				return c
+			}
+		}
+		if committed {
+			cur[key] = val
+		}
+		b, gerr := env.DB.Get(ctxBg, key)
+		want, has := cur[key]
+		if has && (gerr != nil || string(b) != want) || !has && seqrun.Class(gerr) != refmodel.NotFound {
+			c.Violate("committed-state-wrong after-end-with-dead-context", fmt.Sprintf("%s(dead context)=%v then %s=%v: key %q reads %q (%v), expected %q (has a value: %v)", first, e1, second, e2, key, b, gerr, want, has), rp)
+			return c
+		}
+		c.AddDistinct(fmt.Sprintf("deadctx/%s/level%d/%s-then-%s/first-ok=%v", modeName(mode), level, first, second, e1 == nil))
+	}
+	// nothing may be left registered: after a collector pass and a drain the roots hold exactly the
+	// live contents (a transaction that was never ended would pin the collector's horizon)
+	for k := range cur {
+		env.DB.Set(ctxBg, k, []byte("final-"+k))
+	}
+	replay := map[string]any{"seed": seed, "case": idx, "mode": modeName(mode)}
+	if quiesce(&c, env, replay) {
+		leakCheck(&c, env, "after-ends-with-dead-contexts", replay)
+	}
+	if idx == 0 {
+		c.Sample = map[string]any{"scenario": "Commit/Rollback with a cancelled context, then the real end", "mode": modeName(mode)}
 	}
 	return c
 }
